@@ -847,7 +847,7 @@ def cmp_op(ctx, spec, op, where):
         if spec["use_ids"] and want_ids is None and abs(spec["reps"]) != 1:
             want_ids = [str(i) for i in range(abs(spec["reps"]))]
         got_ids = None if base.repetition_ids is None else list(base.repetition_ids)
-        if spec["use_ids"] and got_ids != want_ids:
+        if (spec["use_ids"] or spec["rep_ids"] is not None) and got_ids != want_ids:
             errs.append("%s: repetition_ids %r != %r" % (where, got_ids, want_ids))
         if spec["until"] is None:
             if base.repeat_until is not None:
